@@ -1,6 +1,14 @@
 use core::task::Waker;
 use fixedbitset::FixedBitSet;
 
+#[cfg(feature = "fc-verif")]
+impl crate::utils::verif::Snapshot for ReadinessVec {
+    fn snapshot(&self) -> (std::vec::Vec<bool>, usize, bool) {
+        let bits = (0..self.readiness_list.len()).map(|i| self.readiness_list[i]);
+        (bits.collect(), self.ready_count, self.parent_waker.is_some())
+    }
+}
+
 /// Tracks which wakers are "ready" and should be polled.
 #[derive(Debug)]
 pub(crate) struct ReadinessVec {
